@@ -32,6 +32,21 @@ from semantiva.configurations.load_pipeline_from_yaml import load_pipeline_from_
 from semantiva.registry.bootstrap import RegistryProfile, apply_profile
 
 
+def _publish_failure(
+    transport: SemantivaTransport, job_id: str, error: BaseException
+) -> None:
+    """Report a failed job on its status channel so the master can fail its Future."""
+    error_ctx = ContextType()
+    error_ctx.set_value("job_id", job_id)
+    transport.publish(
+        f"jobs.{job_id}.status",
+        data=None,
+        context=error_ctx,
+        metadata={"job_id": job_id, "status": "failed", "error": error},
+        require_ack=False,
+    )
+
+
 def worker_loop(
     worker_id: int,
     transport: SemantivaTransport,
@@ -114,6 +129,7 @@ def worker_loop(
                             worker_logger.error(
                                 f"Failed to load pipeline YAML for job {job_id} from '{pcfg}': {e}"
                             )
+                            _publish_failure(transport, job_id, e)
                             try:
                                 msg.ack()
                             except Exception:
@@ -124,6 +140,14 @@ def worker_loop(
                     ):
                         worker_logger.error(
                             f"Invalid pipeline configuration received for job {job_id}: {pcfg}"
+                        )
+                        _publish_failure(
+                            transport,
+                            job_id,
+                            TypeError(
+                                "Invalid pipeline configuration: expected a list of node "
+                                f"dictionaries or a YAML path, got {type(pcfg).__name__}"
+                            ),
                         )
                         msg.ack()  # acknowledge to remove the message if applicable
                         continue  # skip processing this message
@@ -170,15 +194,7 @@ def worker_loop(
                     worker_logger.exception(f"Worker failed job {job_id}: {e}")
                     # Report the failure so the master can fail the job's Future
                     # instead of leaving the caller waiting forever
-                    error_ctx = ContextType()
-                    error_ctx.set_value("job_id", job_id)
-                    transport.publish(
-                        f"jobs.{job_id}.status",
-                        data=None,
-                        context=error_ctx,
-                        metadata={"job_id": job_id, "status": "failed", "error": e},
-                        require_ack=False,
-                    )
+                    _publish_failure(transport, job_id, e)
 
             # Close this subscription before the next polling iteration
             sub.close()
